@@ -40,9 +40,10 @@ def auth_of(op):
 
 
 class World:
-    def __init__(self, pkce_required=False, supported=None, strict_hint=False, oidc=False):
+    def __init__(self, pkce_required=False, supported=None, strict_hint=False, oidc=False, framework=None):
         CLOCK.now = 1_000_000
-        self.store, self.srv, self.rp = ms.build(oidc=oidc, pkce_required=pkce_required, scopes_supported=supported)
+        self.store, self.srv, self.rp = ms.build(oidc=oidc, pkce_required=pkce_required, scopes_supported=supported, framework=framework)
+        self.framework = framework
         self.store.strict_hint = strict_hint
         for cid, sec, m, sc, uris in CLIENTS:
             self.store.clients[cid] = Client(cid, sec, uris, sc, ms.ALL_GRANT_TYPES, ms.ALL_RESPONSE_TYPES, m)
@@ -96,7 +97,7 @@ class World:
                 for f, key in (("redirect", "redirect_uri"), ("scope", "scope"), ("challenge", "code_challenge"), ("method", "code_challenge_method")):
                     if op.get(f) is not None:
                         form[key] = op[f]
-                r = srv.create_authorization_response(Req("POST", "https://as.example/authorize", form), grant_user=store.users[op["user"]] if op["approve"] else None)
+                r = ms.fw_call(srv, Req("POST", "https://as.example/authorize", form), "create_authorization_response", grant_user=store.users[op["user"]] if op["approve"] else None)
                 loc = dict(r.headers).get("Location")
                 if loc:
                     q = dict(parse_qsl(urlparse(loc).query))
@@ -104,7 +105,7 @@ class World:
                 return self.out(r.status, r.body if isinstance(r.body, dict) else {})
             if k == "implicit":      # C19 only: traced and checked by the oracle, not part of the Lean state machine
                 form = {"response_type": "token", "client_id": op["client"], "redirect_uri": op["redirect"], "scope": op["scope"]}
-                r = srv.create_authorization_response(Req("POST", "https://as.example/authorize", form), grant_user=store.users[op["user"]])
+                r = ms.fw_call(srv, Req("POST", "https://as.example/authorize", form), "create_authorization_response", grant_user=store.users[op["user"]])
                 loc = dict(r.headers).get("Location") or ""
                 q = dict(parse_qsl(urlparse(loc).fragment))
                 return self.out(r.status, {"error": q.get("error"), **({"access_token": q["access_token"], "scope": q.get("scope")} if "access_token" in q else {})})
@@ -112,7 +113,7 @@ class World:
                 form = {"response_type": op["rt"], "client_id": op["client"], "redirect_uri": op["redirect"], "scope": op["scope"]}
                 if op.get("nonce") is not None:
                     form["nonce"] = op["nonce"]
-                r = srv.create_authorization_response(Req("POST", "https://as.example/authorize", form), grant_user=store.users[op["user"]])
+                r = ms.fw_call(srv, Req("POST", "https://as.example/authorize", form), "create_authorization_response", grant_user=store.users[op["user"]])
                 loc = dict(r.headers).get("Location") or ""
                 u = urlparse(loc)
                 q = dict(parse_qsl(u.query)); q.update(parse_qsl(u.fragment))
@@ -137,36 +138,36 @@ class World:
                 for fld, key in (("code", "code"), ("redirect", "redirect_uri"), ("verifier", "code_verifier")):
                     if op.get(fld) is not None:
                         f[key] = op[fld]
-                r = srv.create_token_response(Req("POST", ms.TOKEN_URL, dict(f, **extra), hdr))
+                r = ms.fw_call(srv, Req("POST", ms.TOKEN_URL, dict(f, **extra), hdr), "create_token_response")
             elif k == "device_authorize":
                 f = {}
                 if op.get("scope") is not None: f["scope"] = op["scope"]
                 if op.get("client_id") is not None: f["client_id"] = op["client_id"]
                 f.update(extra)
-                r = srv.create_endpoint_response("device_authorization", Req("POST", "https://as.example/device", f, hdr))
+                r = ms.fw_call(srv, Req("POST", "https://as.example/device", f, hdr), "create_endpoint_response", "device_authorization")
             elif k == "poll":
                 f = {"grant_type": "urn:ietf:params:oauth:grant-type:device_code"}
                 if op.get("dc") is not None: f["device_code"] = op["dc"]
-                r = srv.create_token_response(Req("POST", ms.TOKEN_URL, dict(f, **extra), hdr))
+                r = ms.fw_call(srv, Req("POST", ms.TOKEN_URL, dict(f, **extra), hdr), "create_token_response")
             elif k == "issue_password":
                 f = {"grant_type": "password", "password": "pw"}
                 if op.get("user") is not None: f["username"] = str(op["user"])
                 if op.get("scope") is not None: f["scope"] = op["scope"]
-                r = srv.create_token_response(Req("POST", ms.TOKEN_URL, dict(f, **extra), hdr))
+                r = ms.fw_call(srv, Req("POST", ms.TOKEN_URL, dict(f, **extra), hdr), "create_token_response")
             elif k == "issue_cc":
                 f = {"grant_type": "client_credentials"}
                 if op.get("scope") is not None: f["scope"] = op["scope"]
-                r = srv.create_token_response(Req("POST", ms.TOKEN_URL, dict(f, **extra), hdr))
+                r = ms.fw_call(srv, Req("POST", ms.TOKEN_URL, dict(f, **extra), hdr), "create_token_response")
             elif k == "refresh":
                 f = {"grant_type": "refresh_token"}
                 if op.get("token") is not None: f["refresh_token"] = op["token"]
                 if op.get("scope") is not None: f["scope"] = op["scope"]
-                r = srv.create_token_response(Req("POST", ms.TOKEN_URL, dict(f, **extra), hdr))
+                r = ms.fw_call(srv, Req("POST", ms.TOKEN_URL, dict(f, **extra), hdr), "create_token_response")
             elif k in ("revoke", "introspect"):
                 f = {}
                 if op.get("token") is not None: f["token"] = op["token"]
                 if op.get("hint") is not None: f["token_type_hint"] = op["hint"]
-                r = srv.create_endpoint_response("revocation" if k == "revoke" else "introspection", Req("POST", "https://as.example/ep", dict(f, **extra), hdr))
+                r = ms.fw_call(srv, Req("POST", "https://as.example/ep", dict(f, **extra), hdr), "create_endpoint_response", "revocation" if k == "revoke" else "introspection")
             else:
                 raise AssertionError(k)
             return self.out(r.status, r.body if isinstance(r.body, dict) else {})
@@ -272,10 +273,31 @@ def gen_history(rng, length, flavor, pkce_required=False, supported=None, strict
     return {"cfg": w.cfg, "ops": ops, "_outs": outs, "_store": w.snapshot()}
 
 
-def replay(case):
+def replay_all(case):
+    """the history on the core server and on the Flask and Django integrations over the same kind of store; a framework's answer is kept only where it differs"""
+    out = replay(case)
+    for fw in ("flask", "django"):
+        o = replay(case, fw)
+        if o != out:
+            out["differs:" + fw] = o
+    return out
+
+
+def oracle_all(oracle):
+    """lift a property oracle over the core outcome to the framework outcomes that differ from it"""
+    def lifted(c, out):
+        v = oracle(c, {k: x for k, x in out.items() if not k.startswith("differs:")})
+        for fw in ("flask", "django"):
+            if "differs:" + fw in out:
+                v += [(f"[{fw} integration] {what}", dict(sig, fw=fw)) for what, sig in oracle(c, out["differs:" + fw])]
+        return v
+    return lifted
+
+
+def replay(case, framework=None):
     """run a recorded history on the real code again (used for replays and seeded-mutant checks)"""
     cfg = case["cfg"]
-    w = World(cfg.get("pkce_required", False), cfg.get("supported"), cfg.get("strict_hint", False))
+    w = World(cfg.get("pkce_required", False), cfg.get("supported"), cfg.get("strict_hint", False), framework=framework)
     outs = []
     for op in case["ops"]:
         o = w.step(op)
